@@ -69,10 +69,18 @@ class SymCapture:
         return self
 
     def write(self, s):
-        self.cur = self.cur + s
+        from sea.symstr import SymStr
+        cur = self.cur
+        if isinstance(cur, SymStr) and cur.const() is not None and isinstance(s, str):
+            self.cur = SymStr.of(cur.const() + s)
+        else:
+            self.cur = cur + s
 
     def __exit__(self, t, v, tb):
         if self.enabled:
+            c = self.cur.const() if hasattr(self.cur, 'const') else self.cur
+            if c is not None:
+                self.cur = c          # plain python text when nothing symbolic was written
             self.text = self.cur
             self.parts.append(self.cur)
             self.started = False
